@@ -893,8 +893,10 @@ def _shuffled_dir(sim, name, res):
 
 
 class SimFile:
-    def __init__(self, sim, actor, fd, mode, encoding, errors, newline, closefd, name):
+    def __init__(self, sim, actor, fd, mode, encoding, errors, newline, closefd, name, buffering=-1):
         self._sim = sim
+        # buffering=0 (binary only) is a RAW file: write() is ONE write(2) whose possibly short count is returned to the caller
+        self._raw = buffering == 0 and "b" in mode
         self._actor = actor
         self._fd = fd
         self.mode = mode
@@ -1013,6 +1015,9 @@ class SimFile:
         if self._binary:
             data = bytes(s)
             n = len(data)
+            if self._raw:
+                self._rdata = None
+                return os.write(self._fd, data)
         else:
             if not isinstance(s, str):
                 raise TypeError(f"write() argument must be str, not {type(s).__name__}")
@@ -1076,6 +1081,17 @@ class SimFile:
     def detach(self):
         raise HarnessError("SimFile.detach not supported")
 
+    @property
+    def buffer(self):
+        """The binary layer under a text file (shares the simulator-owned buffer)."""
+        if self._binary:
+            raise AttributeError("buffer")
+        return _BufferView(self)
+
+    @property
+    def raw(self):
+        raise HarnessError("SimFile.raw not supported")
+
     def __enter__(self):
         self._check()
         return self
@@ -1096,6 +1112,29 @@ class SimFile:
             pass
 
 
+class _BufferView:
+    def __init__(self, f):
+        self._f = f
+
+    def write(self, b):
+        self._f._check()
+        data = bytes(b)
+        self._f._rdata = None
+        self._f._wbuf += data
+        if len(self._f._wbuf) > self._f._sim.knobs.userbuf:
+            self._f._flush_raw()
+        return len(data)
+
+    def flush(self):
+        self._f.flush()
+
+    def fileno(self):
+        return self._f.fileno()
+
+    def read(self, n=-1):
+        raise HarnessError("SimFile.buffer.read not supported")
+
+
 _MODE_FLAGS = {"r": os.O_RDONLY, "w": os.O_WRONLY | os.O_CREAT | os.O_TRUNC,
                "a": os.O_WRONLY | os.O_CREAT | os.O_APPEND, "x": os.O_WRONLY | os.O_CREAT | os.O_EXCL}
 
@@ -1109,7 +1148,9 @@ def _sim_open(file, mode="r", buffering=-1, encoding=None, errors=None, newline=
         raise SimKilled()
     if isinstance(file, int):
         if file in a.fds:
-            return SimFile(sim, a, file, mode, encoding, errors, newline, closefd, file)
+            if buffering == 0 and "b" not in mode:
+                raise ValueError("can't have unbuffered text I/O")
+            return SimFile(sim, a, file, mode, encoding, errors, newline, closefd, file, buffering)
         return _real["io.open"](file, mode, buffering, encoding, errors, newline, closefd, opener)
     try:
         path = sim.abspath(file)
@@ -1137,7 +1178,7 @@ def _sim_open(file, mode="r", buffering=-1, encoding=None, errors=None, newline=
         finally:
             sim._drop_fd(a, fd)
         raise
-    return SimFile(sim, a, fd, mode, encoding, errors, newline, True, os.fspath(file))
+    return SimFile(sim, a, fd, mode, encoding, errors, newline, True, os.fspath(file), buffering)
 
 
 def _make_os_wrapper(name):
